@@ -16,7 +16,7 @@ func init() {
 		LevelText:   "Result equality of two engines is behavioural; what is decided is that the second engine repeats the first one's decisions: the same paging defaults and overflow-free window arithmetic, a total count independent of paging, comparators with the identical 24-case decision table and the id tie-break, a null test that can actually be true for boxed nil pointers, and no use of the iterator before its nil check.",
 		LevelNote:   "Trusted: go/types, x/tools SSA, llrb, the DECIDE interpreter. Not decided: evaluation of filters on real objects (shared ast code: C01), iteration order of the caller's iterator.",
 		DesignRef:   "DESIGN.md C19",
-		Explanation: "Sites: objectz.scanner.setPaging, memSortingScanner.Scan, ObjectCursor.IsNil and all ObjectSymbol.Eval implementers, the five object*SymbolComparator.compare methods, ObjectStore.newRowComparator.",
+		Explanation: "Sites: the paging normalisation of the objectz scanner (expanded into the functions that use it), memSortingScanner.Scan, ObjectCursor.IsNil and all ObjectSymbol.Eval implementers, the five object*SymbolComparator.compare methods, ObjectStore.newRowComparator.",
 		Trusted:     []string{"go/types", "golang.org/x/tools/go/ssa v0.29.0", "github.com/biogo/store/llrb"},
 		Rules:       rulesC19,
 		Controls: []controlExpect{
@@ -39,6 +39,7 @@ func rulesC19(c *Ctx) {
 	ruleRowComparatorFirstNonZero(c, "C19.CMP", p.SSAFunc(p.Method("objectz", "compoundObjectComparator", "compare")))
 	ruleC19Null(c)
 	ruleUseBeforeCheck(c, "C19.USEBEFORECHECK", c.prodFuncs("objectz"))
+	ruleC19IteratorTotal(c)
 }
 
 // ruleC19Null: an `== nil` on an interface all of whose producers box a pointer cannot detect null.
@@ -231,4 +232,56 @@ func firstParam(fn *ssa.Function) *ssa.Parameter {
 		return fn.Params[0]
 	}
 	return nil
+}
+
+// ruleC19IteratorTotal: the in-memory scan primes its cursor with iterator.Current() BEFORE the first
+// IsValid() test (the bolt-backed store returns an empty result for an empty collection, and so must this
+// one).  Current() of every object iterator is therefore total: it never indexes a slice or array without
+// a bound established on the path.
+func ruleC19IteratorTotal(c *Ctx) {
+	p := c.P
+	n := 0
+	for _, fn := range c.prodFuncs("objectz") {
+		if fn.Name() != "Current" || fn.Signature.Recv() == nil || fn.Parent() != nil || fn.Signature.Params().Len() != 0 {
+			continue
+		}
+		n++
+		name := FnName(fn)
+		c.Analysed(name)
+		fi := factsOf(fn)
+		bad := false
+		for _, b := range fn.Blocks {
+			for _, in := range b.Instrs {
+				var idx ssa.Value
+				switch x := in.(type) {
+				case *ssa.IndexAddr:
+					idx = x.Index
+				case *ssa.Index:
+					idx = x.Index
+				default:
+					continue
+				}
+				guarded := fi.HoldsWhere(b, func(f Fact) bool {
+					bo, ok := f.V.(*ssa.BinOp)
+					if !ok || f.Kind != "true" {
+						return false
+					}
+					switch bo.Op {
+					case token.LSS, token.LEQ, token.GTR, token.GEQ:
+						return bo.X == idx || bo.Y == idx || fi.canon(bo.X) == fi.canon(idx) || fi.canon(bo.Y) == fi.canon(idx)
+					}
+					return false
+				})
+				if !guarded {
+					bad = true
+					c.Bad("C19.ITERTOTAL", name+": index", p.Pos(in.Pos()), "Current() indexes with "+describeValue(idx)+" without a bound on the path: the scan calls Current() before its first IsValid() test, so a query over an EMPTY collection panics here where the bolt-backed store returns an empty result")
+				}
+			}
+		}
+		if !bad {
+			c.OK("C19.ITERTOTAL", name, p.Pos(fn.Pos()), "no unguarded index expression: Current() is safe to call on an exhausted or empty iterator")
+		}
+	}
+	c.CallSites(n)
+	c.Floor("C19.ITERTOTAL", 1)
 }
